@@ -6,9 +6,9 @@
 //!       · EVERY single-byte substitution (all 255 other values at every position),
 //!       · EVERY truncation point (prefix lengths 0..len-1),
 //!       · every block-length field forced to {0, 1, actual-1, actual+1, 2^24-1},
-//!       · thorough tier: every ORDERED PAIR of distinct "prefix positions" (block-header bytes, vorbis-comment
-//!         length/count fields, picture type/string/data length fields, cue-sheet track and index counts) with
-//!         all 255 other values at the first position × the 24-value boundary alphabet PAIR_ALPHA at the second.
+//!       · thorough tier: EVERY pair of substitutions at two distinct "prefix positions" (block-header bytes,
+//!         vorbis-comment length/count fields, picture type/string/data length fields, cue-sheet track and index
+//!         counts): all 255 × 255 value pairs for every unordered position pair (≈ 344 million inputs).
 //!     Entry points per input: BlockList::read, read_blocks(..).collect, read_info, read_block::<T> for all 7 T
 //!     (the pair tier runs BlockList::read + read_blocks + accessors only).  On everything that parses every accessor
 //!     is called: the 8 `Metadata` trait methods (on the BlockList and on the Streaminfo from read_info) and the 10
@@ -36,9 +36,6 @@ const ALLOC_BASE: usize = 64 << 20;
 fn alloc_bound(len: usize) -> usize {
     ALLOC_BASE + 16 * len
 }
-
-/// second-position alphabet of the thorough pair tier
-const PAIR_ALPHA: [u8; 24] = [0x00, 0x01, 0x02, 0x03, 0x04, 0x05, 0x06, 0x07, 0x08, 0x12, 0x22, 0x24, 0x7f, 0x80, 0x81, 0x82, 0x83, 0x84, 0x85, 0x86, 0x87, 0xaa, 0xfe, 0xff];
 
 // ---------------------------------------------------------------------------------------------
 // hand serialisers (independent of the crate)
@@ -452,13 +449,42 @@ fn meta_case(bytes: &[u8], full: bool) -> CaseOut {
     CaseOut { label, findings: merge(f), steps }
 }
 
+/// counter bumps without a key allocation on the hot path
+fn bump(acc: &mut Acc, label: String) {
+    match acc.outcomes.get_mut(&label) {
+        Some(c) => *c += 1,
+        None => {
+            acc.outcomes.insert(label, 1);
+        }
+    }
+}
+fn bump_dim(acc: &mut Acc, key: &'static str) {
+    match acc.dims.get_mut(key) {
+        Some(c) => *c += 1,
+        None => {
+            acc.dims.insert(key.to_string(), 1);
+        }
+    }
+}
+
 fn exec_meta(acc: &mut Acc, base: &str, mode: &str, bytes: &[u8], full: bool) {
     let out = meta_case(bytes, full);
     acc.states += 1;
     acc.executions += 1;
     acc.transitions += out.steps;
-    acc.dim(&format!("meta_cases_{mode}"), 1);
-    acc.outcome(format!("meta:{}{}", out.label, if out.findings.is_empty() { "" } else { ":VIOLATION" }));
+    bump_dim(acc, match mode {
+        "base" => "meta_cases_base",
+        "subst1" => "meta_cases_subst1",
+        "truncate" => "meta_cases_truncate",
+        "length-forced" => "meta_cases_length-forced",
+        _ => "meta_cases_subst2",
+    });
+    let mut label = out.label;
+    label.insert_str(0, "meta:");
+    if !out.findings.is_empty() {
+        label.push_str(":VIOLATION");
+    }
+    bump(acc, label);
     for (clause, text) in out.findings {
         acc.violation(format!("C12|{clause}"), format!("metadata section '{base}' ({mode}, {} bytes): {text}", bytes.len()), json!({"kind":"c12-meta","base":base,"mode":mode,"full":full,"hex":hex(bytes)}));
     }
@@ -508,18 +534,15 @@ fn meta(ctx: &Ctx, acc: &mut Acc) {
                 exec_meta(acc, name, "length-forced", &m, true);
             }
         }
-        // thorough: ordered pairs of prefix positions, 255 values × boundary alphabet
+        // thorough: EVERY pair of substitutions at two distinct prefix positions (all 255 × 255 value pairs)
         if ctx.thorough() {
-            for &p in &pos {
-                for &q in &pos {
-                    if p == q {
-                        continue;
-                    }
+            for (a, &p) in pos.iter().enumerate() {
+                for &q in &pos[a + 1..] {
                     for v in 0..=255u8 {
                         if v == sec[p] {
                             continue;
                         }
-                        for &w in &PAIR_ALPHA {
+                        for w in 0..=255u8 {
                             if w == sec[q] {
                                 continue;
                             }
@@ -535,9 +558,6 @@ fn meta(ctx: &Ctx, acc: &mut Acc) {
                 }
             }
         }
-    }
-    if ctx.thorough() && ctx.shard == 0 {
-        acc.notes.push(format!("C12(a) pair tier: ordered pairs of distinct prefix positions, all 255 other values at the first × {:02x?} at the second; entry points BlockList::read + read_blocks + accessors", PAIR_ALPHA));
     }
 }
 
@@ -639,8 +659,13 @@ fn exec_img(acc: &mut Acc, base: &str, mode: &str, data: &[u8]) {
     acc.states += 1;
     acc.executions += 1;
     acc.transitions += 1;
-    acc.dim(&format!("img_cases_{mode}"), 1);
-    acc.outcome(format!("img:{label}"));
+    bump_dim(acc, match mode {
+        "base" => "img_cases_base",
+        "subst1" => "img_cases_subst1",
+        "truncate" => "img_cases_truncate",
+        _ => "img_cases_suffix",
+    });
+    bump(acc, format!("img:{label}"));
     for (clause, text) in findings {
         acc.violation(format!("C12|{clause}"), format!("image '{base}' ({mode}, {} bytes {}): {text}", data.len(), hex(&data[..data.len().min(48)])), json!({"kind":"c12-img","base":base,"mode":mode,"hex":hex(data)}));
     }
